@@ -202,6 +202,18 @@ func init() {
 	vrtPrims["vrtU32"] = w(32, "u32")
 	vrtPrims["vrtU64"] = w(64, "u64")
 	vrtPrims["vrtInt"] = w(64, "int")
+	// vrtBelow(n): fresh 64-bit value in [0, n) whose range is known to the term layer
+	vrtPrims["vrtBelow"] = simple(func(st *State, args []Value) Value {
+		n := st.mustConst(args[0], "vrtBelow")
+		if n == 0 {
+			panic(pathAbort{kind: "INFEASIBLE", msg: "vrtBelow(0)"})
+		}
+		v := st.fresh("below", 64)
+		c := st.tt.RawULt(v, st.tt.Const(n, 64)) // unfolded: the declared range must reach the solver
+		v.RHi = n - 1
+		st.assume(c)
+		return v
+	})
 	vrtPrims["vrtBool"] = simple(func(st *State, args []Value) Value {
 		return st.fresh("bool", 0)
 	})
@@ -383,6 +395,13 @@ func init() {
 	})
 	vrtPrims["vrtNote"] = simple(func(st *State, args []Value) Value {
 		st.trace = append(st.trace, st.mustConcreteString(args[0], "vrtNote"))
+		return nil
+	})
+	vrtPrims["vrtClockAdvance"] = simple(func(st *State, args []Value) Value {
+		tt := st.tt
+		d := args[0].(*Term)
+		st.check(tt.Cmp(OpSLe, tt.Const(0, 64), d), "vrtClockAdvance: negative duration")
+		st.now = tt.Bin(OpAdd, st.clockNow(), d)
 		return nil
 	})
 	vrtPrims["vrtIsSym"] = simple(func(st *State, args []Value) Value { return st.tt.True })
